@@ -7,6 +7,7 @@ REQUIRED = [
     "DaeVerif.C05.Props.copy_loop_identity",
     "DaeVerif.C05.Props.take_then_remainder",
     "DaeVerif.C05.Props.read_conserves",
+    "DaeVerif.C05.Props.interleaving_conserves",
     "DaeVerif.C05.Props.detection_hands_over_every_byte",
     "DaeVerif.C05.Props.relay_starts_within_window",
     "DaeVerif.C05.Props.no_deadline_left_armed",
@@ -44,7 +45,7 @@ def run(ctx):
         "the destination accepts every write (a healthy peer); write errors are exercised only through peer close/reset",
     ]
     # 1. harness binary first: the deadline-path table is regenerated from the repository under check
-    binp = ctx.go_test_build("control", ["control/c05_test.go", "control/c05_paths_test.go", "control/c05_tcp_test.go"], "c05")
+    binp = ctx.go_test_build("control", ["control/c05_test.go", "control/c05_paths_test.go", "control/c05_tcp_test.go", "control/c05_wrap_test.go"], "c05")
     if not binp:
         return 2
     rc, out = ctx.run_harness(binp, "TestVerifC05Paths")
@@ -74,7 +75,7 @@ def run(ctx):
     distinct = set()
     samples = []
     dist = {}
-    for test, stream in (("TestVerifC05Conn", "c05conn"), ("TestVerifC05Tcp", "c05tcp")):
+    for test, stream in (("TestVerifC05Conn", "c05conn"), ("TestVerifC05Tcp", "c05tcp"), ("TestVerifC05Wrap", "c05wrap")):
         rc, out = ctx.run_harness(binp, test)
         ops, impl, model = (os.path.join(ctx.out, stream + "." + e) for e in ("ops", "impl", "model"))
         if rc != 0 or not os.path.exists(ops):
@@ -109,6 +110,11 @@ def run(ctx):
         for op, im in zip(op_lines, impl_lines):
             if im.startswith("crash:"):
                 ctx.report("real code panicked: " + im[:300], {"op": op, "impl": im})
+            if "LOSS-OR-DUP" in im or "NOT-A-PREFIX" in im:
+                ctx.report("a wrapper lost, duplicated or reordered bytes: the concatenation of everything it handed out "
+                           "(Read / TakeRelaySegments / CopyRelayRemainder / WriteTo, in this order: " + op.split()[-1] +
+                           ") is not the bytes fed in — " + im[-200:],
+                           {"stream": stream, "op": op, "impl": im, "read_sequence": op.split()[-1].split(",")})
             if stream == "c05conn":
                 f = fields(im)
                 if f.get("armed") == "1":
